@@ -32,6 +32,7 @@ def conclude(pid, P, tier, seed, results, wall):
     assumptions = list(P.get('assumptions', []))
     slow = []
     cover_state = {}
+    known_state = {}
     for r in results:
         unit = r.get('unit')
         if r.get('crash'):
@@ -69,15 +70,8 @@ def conclude(pid, P, tier, seed, results, wall):
             if o.get('known') or name.endswith('#known'):
                 base = name[:-len('#known')] if name.endswith('#known') else name
                 ks = r.get('known', {}).get(base, [])
-                if st == 'failed':
-                    for k in ks:
-                        line = 'KNOWN-FINDING: property=%s %s [%s]' % (pid, k['what'], base)
-                        if line not in known_lines:
-                            known_lines.append(line)
-                elif st == 'discharged':
-                    notes.append('listed finding on %s no longer reproduces' % base)
-                else:
-                    notes.append('listed finding on %s: solver undecided' % base)
+                ka = known_state.setdefault(base, {'failed': 0, 'discharged': 0, 'other': 0, 'ks': ks})
+                ka['failed' if st == 'failed' else 'discharged' if st == 'discharged' else 'other'] += 1
                 continue
             n_obl += 1
             if st == 'discharged':
@@ -106,6 +100,16 @@ def conclude(pid, P, tier, seed, results, wall):
         names = [o['name'] for r in results for o in r.get('obligations', [])
                  if o.get('status') == 'discharged' and o.get('expect') != 'sat']
         json.dump(sorted(set(names)), open(dump, 'w'))
+    for base, ka in known_state.items():
+        # a listed finding is reported while its witness region still fails on some path (or the
+        # solver cannot tell); it is dropped with a note once every path instance is discharged
+        if ka['failed'] or ka['other']:
+            for k in ka['ks']:
+                line = 'KNOWN-FINDING: property=%s %s [%s]' % (pid, k['what'], base)
+                if line not in known_lines:
+                    known_lines.append(line)
+        else:
+            notes.append('listed finding on %s no longer reproduces' % base)
     for (unit, name), cov in cover_state.items():
         covers_total += 1
         if cov['sat']:
